@@ -780,6 +780,16 @@ func serveUDPWild(slowMs int) string {
 				}
 				cc.ReleaseMessage(resp)
 			}
+			// one logical connection for C: the peer table holds it under exactly one key
+			keys := 0
+			for _, k := range s.VerifConnKeys() {
+				if strings.HasPrefix(k, c.LocalAddr().String()+"-") && !strings.HasSuffix(k, "!closed") {
+					keys++
+				}
+			}
+			if srvInit == 1 && keys != 1 {
+				srvInit = 10 + keys
+			}
 		}
 	} else {
 		srvInit = 1 // (no second socket: nothing to observe)
